@@ -646,6 +646,10 @@ func (l *log) Close() error {
 			}
 		}
 	} else {
+		// a delete in progress works on the segment files between its locked sections, wait for it
+		l.deleteMu.Lock()
+		defer l.deleteMu.Unlock()
+
 		l.writerMu.Lock()
 		defer l.writerMu.Unlock()
 
